@@ -167,6 +167,48 @@ func loadProg(pkgPaths []string, overlay map[string][]byte) (*Prog, error) {
 
 func (p *Prog) isTargetPkg(path string) bool { return p.targets[path] }
 
+// resultType finds the i-th result type of a contracted function or interface method by key.
+func (p *Prog) resultType(key string, i int) types.Type {
+	if fn := p.funcs[key]; fn != nil {
+		if i < fn.Signature.Results().Len() {
+			return fn.Signature.Results().At(i).Type()
+		}
+		return nil
+	}
+	// interface method: (pkg.Iface).Method
+	k := strings.LastIndex(key, ").")
+	if !strings.HasPrefix(key, "(") || k < 0 {
+		return nil
+	}
+	tn := strings.TrimPrefix(key[1:k], "*")
+	mn := key[k+2:]
+	d := strings.LastIndex(tn, ".")
+	if d < 0 {
+		return nil
+	}
+	pk := p.pkgByPath(tn[:d])
+	if pk == nil {
+		return nil
+	}
+	obj := pk.Scope().Lookup(tn[d+1:])
+	if obj == nil {
+		return nil
+	}
+	ms := types.NewMethodSet(obj.Type())
+	if _, isI := obj.Type().Underlying().(*types.Interface); !isI {
+		ms = types.NewMethodSet(types.NewPointer(obj.Type()))
+	}
+	for j := 0; j < ms.Len(); j++ {
+		if ms.At(j).Obj().Name() == mn {
+			sig := ms.At(j).Type().(*types.Signature)
+			if i < sig.Results().Len() {
+				return sig.Results().At(i).Type()
+			}
+		}
+	}
+	return nil
+}
+
 func (p *Prog) pkgByPath(path string) *types.Package {
 	if pk, ok := p.byPath[path]; ok {
 		return pk.Types
